@@ -576,4 +576,98 @@ theorem getBytes_ok_consumed {b v r : Bytes} (h : getBytes b = .ok (v, r)) :
       simp only [List.length_drop]
       omega
 
+/-! #### Decoding is injective: what a decoder accepted re-encodes to exactly the bytes it consumed -/
+
+theorem getU32_inv {b r : Bytes} {v : Nat} (h : getU32 b = .ok (v, r)) : putU32 v ++ r = b := by
+  unfold getU32 at h
+  by_cases hl : b.length < 4
+  · simp [hl] at h
+  · simp only [hl, if_false] at h
+    injection h with h; injection h with h1 h2
+    subst h1 h2
+    unfold putU32
+    have : (b.take 4).length = 4 := by simp [List.length_take]; omega
+    have e := leN_fromLE (b.take 4)
+    rw [this] at e
+    rw [e, List.take_append_drop]
+
+theorem getU64_inv {b r : Bytes} {v : Nat} (h : getU64 b = .ok (v, r)) : putU64 v ++ r = b := by
+  unfold getU64 at h
+  by_cases hl : b.length < 8
+  · simp [hl] at h
+  · simp only [hl, if_false] at h
+    injection h with h; injection h with h1 h2
+    subst h1 h2
+    unfold putU64
+    have : (b.take 8).length = 8 := by simp [List.length_take]; omega
+    have e := leN_fromLE (b.take 8)
+    rw [this] at e
+    rw [e, List.take_append_drop]
+
+theorem ofInt32_toInt32 (v : Nat) (h : v < 2 ^ 32) : ofInt32 (toInt32 v) = v := by
+  unfold ofInt32 toInt32; split <;> omega
+
+theorem ofInt64_toInt64 (v : Nat) (h : v < 2 ^ 64) : ofInt64 (toInt64 v) = v := by
+  unfold ofInt64 toInt64; split <;> omega
+
+theorem getInt32_inv {b r : Bytes} {i : Int} (h : getInt32 b = .ok (i, r)) : putInt32 i ++ r = b := by
+  unfold getInt32 at h
+  cases hu : getU32 b with
+  | error e => simp [hu] at h
+  | ok p =>
+    obtain ⟨v, r'⟩ := p
+    simp only [hu] at h
+    injection h with h; injection h with h1 h2
+    subst h1 h2
+    unfold putInt32
+    rw [ofInt32_toInt32 v (getU32_lt hu)]
+    exact getU32_inv hu
+
+theorem getInt64_inv {b r : Bytes} {i : Int} (h : getInt64 b = .ok (i, r)) : putInt64 i ++ r = b := by
+  unfold getInt64 at h
+  cases hu : getU64 b with
+  | error e => simp [hu] at h
+  | ok p =>
+    obtain ⟨v, r'⟩ := p
+    simp only [hu] at h
+    injection h with h; injection h with h1 h2
+    subst h1 h2
+    unfold putInt64
+    rw [ofInt64_toInt64 v (getU64_lt hu)]
+    exact getU64_inv hu
+
+theorem getN_inv {n : Nat} {b x r : Bytes} (h : getN n b = .ok (x, r)) : x ++ r = b ∧ x.length = n := by
+  unfold getN at h
+  by_cases hl : b.length < n
+  · simp [hl] at h
+  · simp only [hl, if_false] at h
+    injection h with h; injection h with h1 h2
+    subst h1 h2
+    exact ⟨List.take_append_drop n b, by simp [List.length_take]; omega⟩
+
+theorem consumeID_inv {id : Nat} {b r : Bytes} {u : Unit} (h : consumeID id b = .ok (u, r)) : putU32 id ++ r = b := by
+  have : getU32 b = .ok (id, r) := by
+    unfold consumeID at h
+    unfold getU32
+    by_cases hl : b.length < 4
+    · simp [hl] at h
+    · simp only [hl, if_false] at h ⊢
+      by_cases he : fromLE (List.take 4 b) = id
+      · simp only [he, if_true] at h
+        injection h with h; injection h with _ h2
+        rw [he, h2]
+      · simp [he] at h
+  exact getU32_inv this
+
+theorem toInt32_lt_of_getInt32 {b r : Bytes} {i : Int} (h : getInt32 b = .ok (i, r)) : -2 ^ 31 ≤ i ∧ i < 2 ^ 31 := by
+  unfold getInt32 at h
+  cases hu : getU32 b with
+  | error e => simp [hu] at h
+  | ok p =>
+    obtain ⟨v, r'⟩ := p
+    simp only [hu] at h
+    injection h with h; injection h with h1 _
+    subst h1
+    exact toInt32_range v (getU32_lt hu)
+
 end TdModel.Bin
